@@ -37,11 +37,12 @@ def uexpr(j):
 
 
 def jvals(xs):
-    return [str(x) for x in xs]
+    # a Python float in a value list is a raw f64 (used for -0.0, which no Fraction can express)
+    return [("f:" + enc_f(x)) if isinstance(x, float) else str(x) for x in xs]
 
 
 def uvals(xs):
-    return [F(x) for x in xs]
+    return [dec_f(x[2:]) if isinstance(x, str) and x.startswith("f:") else F(x) for x in xs]
 
 
 def spec_text(e, mode):
